@@ -105,6 +105,12 @@ static inline void op_history(Ctx &c, const std::string &img) {
   // ---- query pool
   std::vector<HQ> pool;
   std::vector<AbsQ> abs = gen_absent(c);
+  {
+    std::vector<AbsQ> col;
+    gen_colliding(c, col);
+    // colliding lookups take the early-return paths of the hash kinds: make them frequent
+    for (int rep = 0; rep < 4; rep++) abs.insert(abs.end(), col.begin(), col.end());
+  }
   std::vector<PQ> pfx, sub;
   if (has_prefix(c.kind) && !c.skip.count("locatePrefix")) pfx = gen_prefixes(c);
   if (has_substr(c) && !c.skip.count("locateSubstr")) sub = gen_substrs(c);
@@ -118,8 +124,8 @@ static inline void op_history(Ctx &c, const std::string &img) {
       obs::count("cls.op_repeated");
       continue;
     }
-    if (pick < 45 || (pfx.empty() && sub.empty() && pick < 60)) { q.type = 0; q.arg = m.S[r.below(m.n)]; }
-    else if (pick < 60 && !abs.empty()) { q.type = 0; q.arg = abs[r.below(abs.size())].q; obs::count("cls.failed_lookup"); }
+    if (pick < 42) { q.type = 0; q.arg = m.S[r.below(m.n)]; }
+    else if (pick < 62 && !abs.empty()) { q.type = 0; q.arg = abs[r.below(abs.size())].q; obs::count("cls.failed_lookup"); }
     else if (pick < 72) { q.type = 1; q.id = r.chance(85) ? 1 + r.below(m.n) : (r.chance(50) ? 0 : m.n + 1 + r.below(5)); }
     else if (pick < 80 && !pfx.empty() && !noLP) { q.type = 2; q.arg = pfx[r.below(pfx.size())].p; }
     else if (pick < 88 && !pfx.empty() && !noEP) { q.type = 3; q.arg = pfx[r.below(pfx.size())].p; }
